@@ -288,8 +288,18 @@ func (u *UnitGen) pushEdge(fr *Frame, in map[*ssa.BasicBlock][]edgeState, from, 
 		if li == nil {
 			unsup("back edge to unknown loop")
 		}
-		es := &State{reach: And(st.reach, cond), vars: st.vars}
-		u.checkInvariants(fr, li, es, "inv-pres")
+		es := &State{reach: And(st.reach, cond), vars: st.vars, epoch: st.epoch}
+		kind := "inv-pres"
+		if len(li.backSrc) > 1 {
+			srcs := append([]*ssa.BasicBlock{}, li.backSrc...)
+			sort.Slice(srcs, func(i, j int) bool { return srcs[i].Index < srcs[j].Index })
+			for i, b := range srcs {
+				if b == from {
+					kind = fmt.Sprintf("inv-pres.b%d", i+1)
+				}
+			}
+		}
+		u.checkInvariants(fr, li, es, kind)
 		return
 	}
 	if region != nil && !region[to] {
@@ -308,11 +318,9 @@ func (u *UnitGen) cutLoop(fr *Frame, li *loopInfo, st *State) *State {
 	}
 	u.bindLoopSpec(fr, li)
 	u.checkInvariants(fr, li, st, "inv-init")
-	// dry run to find the written set
-	tr := map[string]bool{}
-	u.trackers = append(u.trackers, tr)
-	u.dry++
-	nEv, nInit := len(u.events), len(u.obs)
+
+	// ---- dry run 1: which state variables does the body write?
+	nEv, nObs := len(u.events), len(u.obs)
 	savedFacts := map[string]bool{}
 	for k := range u.g.reg.factSeen {
 		savedFacts[k] = true
@@ -321,28 +329,145 @@ func (u *UnitGen) cutLoop(fr *Frame, li *loopInfo, st *State) *State {
 	for k, v := range u.obCtr {
 		savedCtr[k] = v
 	}
+	restore := func() {
+		u.events = u.events[:nEv]
+		u.obs = u.obs[:nObs]
+		u.obCtr = map[string]int{}
+		for k, v := range savedCtr {
+			u.obCtr[k] = v
+		}
+		u.g.reg.factSeen = map[string]bool{}
+		for k := range savedFacts {
+			u.g.reg.factSeen[k] = true
+		}
+	}
+	trk1 := newTracker()
+	trk1.silent = true
+	u.trackers = append(u.trackers, trk1)
+	u.dry++
 	u.execRegion(fr, li.header, li.blocks, st.clone(), li)
 	u.dry--
 	u.trackers = u.trackers[:len(u.trackers)-1]
-	u.events = u.events[:nEv]
-	u.obs = u.obs[:nInit]
-	u.obCtr = savedCtr
-	u.g.reg.factSeen = savedFacts
-	// havoc
-	ns := st.clone()
-	keys := make([]string, 0, len(tr))
-	for k := range tr {
+	restore()
+
+	keys := make([]string, 0, len(trk1.written))
+	for k := range trk1.written {
 		keys = append(keys, k)
 	}
 	sort.Strings(keys)
+
+	// ---- dry run 2: from an arbitrary iteration (everything written is havoced), record
+	// which objects each array is written at. A written index that does not depend on any
+	// name created since the havoc is the same object in every iteration.
+	u.newNames = map[string]bool{}
+	tmp := st.clone()
 	for _, k := range keys {
+		if strings.HasPrefix(k, "region:") {
+			u.havocRegion(tmp, k[len("region:"):])
+		}
+	}
+	for _, k := range keys {
+		if strings.HasPrefix(k, "region:") || strings.HasPrefix(k, "RC:") {
+			continue
+		}
+		if r := u.regionOf(k); r != "" && trk1.written["region:"+r] {
+			continue
+		}
+		if so, ok := u.varSort[k]; ok {
+			tmp.vars[k] = u.havoc("dry_"+k, so)
+		}
+	}
+	trk := newTracker()
+	trk.silent = true
+	u.trackers = append(u.trackers, trk)
+	u.dry++
+	u.execRegion(fr, li.header, li.blocks, tmp, li)
+	u.dry--
+	u.trackers = u.trackers[:len(u.trackers)-1]
+	newNames := u.newNames
+	u.newNames = nil
+	restore()
+	invariantTerm := func(t string) bool {
+		for _, tokn := range strings.FieldsFunc(t, func(r rune) bool { return r == ' ' || r == '(' || r == ')' }) {
+			if newNames[tokn] {
+				return false
+			}
+		}
+		return true
+	}
+
+	// ---- the cut
+	ns := st.clone()
+	for _, k := range keys {
+		if strings.HasPrefix(k, "region:") {
+			u.havocRegion(ns, k[len("region:"):])
+		}
+	}
+	for _, k := range keys {
+		if strings.HasPrefix(k, "region:") || strings.HasPrefix(k, "RC:") {
+			continue
+		}
+		if r := u.regionOf(k); r != "" && trk1.written["region:"+r] {
+			continue
+		}
 		so, ok := u.varSort[k]
 		if !ok {
 			continue
 		}
-		nv := u.havoc(fmt.Sprintf("loop%d_%s", li.ordinal, k), so)
-		// do not record as written by an enclosing tracker twice; set() handles it
-		u.set(ns, k, nv)
+		old := u.get(st, k, so)
+		// classify the writes to k
+		precise := keySortIsInt(so) && trk.nset[k] > 0 && trk.nset[k] == trk.nmark[k]
+		var fixed []Term
+		hasFresh := false
+		if precise {
+			seen := map[string]bool{}
+			for _, w := range trk.refs[k] {
+				switch {
+				case w.fresh:
+					hasFresh = true
+				case invariantTerm(w.ref.S):
+					if !seen[w.ref.S] {
+						seen[w.ref.S] = true
+						fixed = append(fixed, w.ref)
+					}
+				default:
+					precise = false
+				}
+			}
+		}
+		var nv Term
+		switch {
+		case precise && !hasFresh:
+			// only the same objects are written in every iteration: everything else keeps its value
+			arr := old
+			for i, r := range fixed {
+				arr = Store(arr, r, u.havoc(fmt.Sprintf("loop%d_%s_at%d", li.ordinal, k, i), elemSort(so)))
+			}
+			nv = u.define(fmt.Sprintf("loop%d_%s", li.ordinal, k), arr)
+			for _, r := range fixed {
+				u.markStore(k, r)
+			}
+			if len(fixed) == 0 {
+				u.markStoreFresh(k)
+			}
+			u.set(ns, k, nv)
+			u.loopFrames++
+		case precise:
+			nv = u.havoc(fmt.Sprintf("loop%d_%s", li.ordinal, k), so)
+			var ex []string
+			for _, r := range fixed {
+				ex = append(ex, fmt.Sprintf("(not (= r %s))", r.S))
+				u.markStore(k, r)
+			}
+			u.markStoreFresh(k)
+			u.set(ns, k, nv)
+			q := fmt.Sprintf("(forall ((r Int)) (! (=> (and (< r %s) %s) (= (select %s r) (select %s r))) :pattern ((select %s r))))", u.top(st).S, strings.Join(append(ex, "true"), " "), nv.S, old.S, nv.S)
+			u.assume(ns, Term{q, SBool})
+			u.loopFrames++
+		default:
+			nv = u.havoc(fmt.Sprintf("loop%d_%s", li.ordinal, k), so)
+			u.set(ns, k, nv)
+		}
 		if k == "top" {
 			u.assume(ns, App(SBool, "<=", u.top(st), nv))
 		}
@@ -406,6 +531,14 @@ func (u *UnitGen) autoInvariants(fr *Frame, li *loopInfo, st *State) []Term {
 					k := fr.localKey(a)
 					if _, ok := u.varSort[k]; ok {
 						out = append(out, App(SBool, "<=", IntN(-1), u.get(st, k, SInt)))
+						// upper bound: the loop condition compares index+1 with the length
+						if iff, ok := s.Block().Instrs[len(s.Block().Instrs)-1].(*ssa.If); ok {
+							if cmp, ok := iff.Cond.(*ssa.BinOp); ok && cmp.Op == token.LSS {
+								if lt, ok := fr.vals[cmp.Y]; ok {
+									out = append(out, App(SBool, "<", u.get(st, k, SInt), lt))
+								}
+							}
+						}
 					}
 				}
 			}
@@ -431,7 +564,7 @@ func (u *UnitGen) checkInvariants(fr *Frame, li *loopInfo, st *State, kind strin
 		return
 	}
 	for i, t := range u.autoInvariants(fr, li, st) {
-		u.oblige(st, kind, fmt.Sprintf("loop%d/%s#auto%d", li.ordinal, kind, i+1), "rangeindex >= -1", t)
+		u.oblige(st, kind, fmt.Sprintf("loop%d/%s#auto%d", li.ordinal, kind, i+1), "-1 <= rangeindex < len", t)
 	}
 	if li.spec == nil {
 		return
@@ -458,4 +591,8 @@ func (u *UnitGen) assumeInvariants(fr *Frame, li *loopInfo, st *State) {
 	for _, c := range li.spec.Invs {
 		u.assume(st, env.evalBool(c.E))
 	}
+}
+
+func keySortIsInt(so Sort) bool {
+	return strings.HasPrefix(string(so), "(Array Int ")
 }
